@@ -593,6 +593,19 @@ func replayBFS(v report.Violation) string {
 	return osw.ReplayBFS(bfsSystem(sc), v)
 }
 
+// strategyScenarios: delegated phases served with the owners annotation in lockstep with the same
+// phases served with native owner references ("native and annotation owner strategy").
+func strategyScenarios(quick bool) []twin.Scenario {
+	out := []twin.Scenario{
+		{Variant: "annotation", Kind: "chain", N: 1, Mask: 0b1, Successor: true, Classes: []string{"ready"}, Users: 1},
+		{Variant: "annotation", Kind: "chain", N: 2, Mask: 0b10, Classes: []string{"ready"}, Users: 1, Third: 1},
+	}
+	if !quick {
+		out = append(out, twin.Scenario{Variant: "annotation", Kind: "chain", N: 2, Mask: 0b10, Classes: []string{"ready", "notready"}, Users: 1, Third: 1}, twin.Scenario{Variant: "annotation", Kind: "chain", N: 2, Mask: 0b11, Successor: true, Classes: []string{"ready"}}, twin.Scenario{Variant: "annotation", Kind: "chain", N: 2, Mask: 0b01, Classes: []string{"ready", "notready"}, Users: 2})
+	}
+	return out
+}
+
 // twinScenarios: delegated phases of the cluster-scoped kinds (ClusterObjectSetPhase) in lockstep with the namespaced ones.
 func twinScenarios(quick bool) []twin.Scenario {
 	out := []twin.Scenario{
@@ -627,6 +640,7 @@ func init() {
 				}
 				return 2
 			}, Run: runHandover, Replay: replayHandover, Parallel: true},
-			twin.Sub("C15", twinScenarios)},
+			twin.Sub("C15", twinScenarios),
+			twin.StrategySub("C15", strategyScenarios)},
 	})
 }
